@@ -14,6 +14,7 @@
 package fschannel
 
 import (
+	"bytes"
 	"fmt"
 	"os"
 	"time"
@@ -93,31 +94,52 @@ func (f *rotateFile) Write(p []byte) (int, error) {
 	written := 0
 
 	for f.pos+int64(len(p)) > f.maxSize {
-		j := f.maxSize - int64(f.pos)
+		// the part of p that ends with the last newline still fitting
+		// into the active file
+		avail := f.maxSize - f.pos
+		if avail > int64(len(p)) {
+			avail = int64(len(p))
+		} else if avail < 0 {
+			avail = 0
+		}
 
-		for ; j > 0; j-- {
-			// line endings windows?
-			if p[j] == '\n' {
+		k := bytes.LastIndexByte(p[:avail], '\n')
+		if k < 0 {
+			if f.pos > 0 {
+				// not even the first line fits: continue in a fresh file
+				if err := f.rotate(); err != nil {
+					return written, err
+				}
+
+				continue
+			}
+
+			// fresh file and the first line alone is larger than the
+			// maximum size: it gets a file of its own
+			k = bytes.IndexByte(p, '\n')
+			if k < 0 {
 				break
 			}
 		}
 
-		n, err := f.f.Write(p[:j])
+		n, err := f.f.Write(p[:k+1])
+
+		f.pos += int64(n)
+		written += n
+
 		if err != nil {
-			return n, err
+			return written, err
 		}
 
-		written += n
+		p = p[k+1:]
+		if len(p) == 0 {
+			return written, nil
+		}
 
 		// rotate
 		if err := f.rotate(); err != nil {
 			return written, err
 		}
-
-		// skip \n
-		written += 1
-
-		p = p[j+1:]
 	}
 
 	n, err := f.f.Write(p)
